@@ -367,6 +367,8 @@ func (w *weaver) accStmts(s ast.Stmt) (before, after []ast.Stmt) {
 				lit(a.name), id(strconv.FormatBool(a.write)), lit(w.site(s))))
 			w.count("acc")
 		}
+		// the annotation costs a closure: skip it entirely unless a simulation is running
+		st = &ast.IfStmt{Cond: id("VerifOn"), Body: &ast.BlockStmt{List: []ast.Stmt{st}}}
 		if a.app {
 			// needs the length before the append; an append statement holds
 			// no synchronisation (checked in collect), so before == after
@@ -520,7 +522,7 @@ func (w *weaver) stmt(s ast.Stmt) (before []ast.Stmt, repl ast.Stmt, after []ast
 				thunk(&ast.FieldList{List: []*ast.Field{{Type: &ast.InterfaceType{Methods: &ast.FieldList{}}}, {Type: id("int")}, {Type: id("int")}}},
 					&ast.ReturnStmt{Results: []ast.Expr{id(sv), id(key.Name), intLit(1)}}),
 				lit(name), id("false"), lit(w.site(s))))
-			s.Body.List = append([]ast.Stmt{st}, s.Body.List...)
+			s.Body.List = append([]ast.Stmt{&ast.IfStmt{Cond: id("VerifOn"), Body: &ast.BlockStmt{List: []ast.Stmt{st}}}}, s.Body.List...)
 			w.count("accrange")
 		}
 	case *ast.SwitchStmt:
@@ -1742,6 +1744,10 @@ type VerifRuntime interface {
 // VerifRT is nil outside the simulator: every hook is then a no-op and the
 // package behaves exactly like the unwoven source.
 var VerifRT VerifRuntime
+
+// VerifOn is set by the simulator for the duration of a run; the access
+// annotations (the hot ones) are skipped when it is false.
+var VerifOn bool
 
 // vhPre yields before an operation and returns the caller's simulated
 // goroutine (negative if the caller is not simulated); vhPost takes it back,
